@@ -33,6 +33,8 @@ def run(chk, repo):
     chk.rule("C02-X3", "stacking of a possibly empty list of rows is guarded", 1)
     chk.rule("C02-X4", "declared indexing support is served; keys are forwarded unchanged; row dispatch covers int and slice", 5)
     chk.attempt(row_bookkeeping, chk, repo)
+    from .load_rules import wrapper_interrupted
+    chk.attempt(wrapper_interrupted, chk, repo, "C02-X7")
     chk.attempt(x123, chk, repo, covered_by="row_bookkeeping", rules=("C02-X1", "C02-X2", "C02-X3"))
     chk.attempt(wrapper_forwarding, chk, repo)
     chk.attempt(x4, chk, repo, covered_by="wrapper_forwarding", rules=("C02-X4",))
